@@ -274,6 +274,15 @@ fn eval_options(tr: Tr, level: Level, occs: &[&Occ], unit_variant: bool, stage: 
         demanded: true,
     };
     if level == Level::Ignored {
+        // the plain magic fields (`ident`, `vis`, `generics`, `ty`, ...) know no option at all: whatever
+        // is written there is an unknown option. (Reported under its own rule name: the pinned tree
+        // never reads these attributes — known finding K1 — and a different unknown-option regression
+        // must stay distinguishable.) Not demanded next to other violations.
+        for o in occs {
+            let mut x = v("option-on-magic-field", vec![o.range]);
+            x.demanded = false;
+            out.push(x);
+        }
         return out;
     }
     let mut seen: Vec<&Occ> = vec![];
